@@ -355,10 +355,8 @@ Section Handlers.
                   if negb (acl_allowed (ch_join ch) n) then refuse (PErr (Some id) "NOT_ALLOWED")
                   else if nmem n (ch_members ch) then refuse (PErr (Some id) "USER_IN_CHANNEL")
                   else if ch_max_clients ch <=? N.of_nat (length (ch_members ch)) then refuse (PErr (Some id) "CHANNEL_IS_FULL")
-                  else if match alookup (nu n) (inch (st c)) with
-                          | Some l => max_subs cfg <=? N.of_nat (length l)
-                          | None => false
-                          end then refuse (PErr (Some id) "POLICY_VIOLATION")
+                  else if max_subs cfg <=? N.of_nat (length (match alookup (nu n) (inch (st c)) with Some l => l | None => [] end))
+                       then refuse (PErr (Some id) "POLICY_VIOLATION")
                   else
                     let ch1 := insert_member ch n in
                     let '(okn, c1) := notify cfg "MEMBER_JOINED" hd n created (ch_members ch1) (Some h) c in
